@@ -27,6 +27,7 @@ class Run:
         self.corr_bad = []        # (key, query, impl, model)
         self.need_server = need_server
         self.build = None
+        self.abort_at = None      # ((case, idx), status) of the operation during which the harness process died
 
     # ---- step 1/2: obligations and translator
     def prepare(self):
@@ -81,6 +82,9 @@ class Run:
             self.broken.append("harness killed by the watchdog (an operation did not terminate)")
         elif rc != 0:
             self.broken.append(f"harness exited with status {rc} (abort inside the implementation?)")
+            order = [k for k in cases.queries if k not in ia]
+            if order:
+                self.abort_at = (order[0], rc)
         if rc2 != 0:
             self.broken.append(f"model driver exited with status {rc2}")
         self.stats.setdefault("impl_s", 0); self.stats["impl_s"] += round(dt, 2)
